@@ -134,6 +134,14 @@ class SharedMemoryFileBufferedCollection(FileBufferedCollection):
                         if cached_data["metadata"] != self._get_file_metadata():
                             raise MetadataError(self._filename, cached_data["contents"])
                         self._save_to_resource()
+                        if force:
+                            # The entry is retained on a force flush and could be
+                            # modified again later, so its metadata must describe
+                            # the file that was just written; otherwise the next
+                            # flush would appear invalid. Entries that were not
+                            # written keep their metadata so that a change made
+                            # to the file by someone else is still detected.
+                            cached_data["metadata"] = self._get_file_metadata()
                 finally:
                     # Whether or not an error was raised, the cache must be
                     # cleared to ensure a valid final buffer state, unless
@@ -145,15 +153,7 @@ class SharedMemoryFileBufferedCollection(FileBufferedCollection):
                     if not force:
                         del type(self)._buffer[self._filename]
                     else:
-                        # Have to update the metadata on a force flush because
-                        # we could modify this item again later, leading to
-                        # another (possibly forced) flush afterwards that will
-                        # appear invalid if the metadata isn't updated to the
-                        # metadata after the current flush.
-                        # The flag is reset first so that it stays consistent
-                        # with the buffer size even if reading the metadata fails.
                         cached_data["modified"] = False
-                        cached_data["metadata"] = self._get_file_metadata()
         else:
             # If this object is still buffered _and_ this wasn't a force flush,
             # that implies a nesting of buffered contexts in which another
